@@ -110,6 +110,10 @@ class Graph:
         op = node["op"]
         p = node.get("p", {})
         ins = [self.t[n] for n in node["in"]]
+        if len(ins) > 1 and len({t.dtype for t in ins}) > 1:
+            # mixed precision operands: the user converts to the wider type explicitly
+            wide = torch.float64 if any(t.dtype == torch.float64 for t in ins) else torch.float32
+            ins = [t if t.dtype == wide else t.to(wide) for t in ins]
         if op in _UNARY:
             return [_UNARY[op](ins[0])]
         if op == "scale":
@@ -121,7 +125,7 @@ class Graph:
         if op == "mul":
             return [ins[0] * ins[1]]
         if op == "lin":
-            W = torch.tensor(p["W"], dtype=self.dtype)
+            W = torch.tensor(p["W"], dtype=ins[0].dtype)
             return [(W @ ins[0].reshape(-1)).reshape(tuple(p["shape"]))]
         if op == "sum":
             return [ins[0].sum()]
@@ -152,6 +156,8 @@ class Graph:
         if op == "where":
             mask = torch.tensor(p["mask"], dtype=torch.bool).reshape(ins[0].shape)
             return [torch.where(mask, ins[0], ins[1])]
+        if op == "cast":
+            return [ins[0].to(torch.float32 if ins[0].dtype == torch.float64 else torch.float64)]
         if op == "detach":
             return [ins[0].detach()]
         if op == "probe":
